@@ -8,10 +8,11 @@
 // Every shape is FIXED per harness (macro instance). Values are symbolic f64 bit patterns that are only moved and compared;
 // where an operation does float arithmetic or ordering (negative, max, min, argmax, max_diff) each value is drawn from the
 // mixed-sign constant set {-2.0, -0.5, 0.0, 1.5, 3.0} by a symbolic selector.
-// `tr = true` operands are built with the transposed shape and passed through `BaseMatrix::transpose` on both sides
+// `_tr` operands are built with the transposed shape and passed through `BaseMatrix::transpose` on both sides
 // (nalgebra's transpose copies into standard column-major storage, so this is the same logical matrix reached another way).
 //
-// GENERATED from c20_ndarray.rs (same harness text, backend types and names replaced); keep the two files in step.
+// Derived from c20_ndarray.rs: same harness text with the backend types and names replaced, Lay::Rev instances mapped to
+// Lay::Tr (duplicates dropped), h_stack / v_stack instances dropped (not admitted, see below). Keep the two files in step.
 use super::*;
 use crate::linalg::naive::dense_matrix::DenseMatrix;
 
